@@ -9,7 +9,7 @@ OPS = ['query', 'add-taxon+flush', 'edit-genome+flush', 'edit+autoflush-query', 
 
 
 def main(tier):
-    run = Run(PID, tier)
+    run = Run(PID, tier, level='exploration')
     ln = 2 if tier == 'quick' else 3
     jobs = []
     PRE = ['nothing happened before', 'a writable session (readonly=False) on an unrelated file was used before', 'a writable session (cls=Session) on an unrelated file was used before']
@@ -24,6 +24,10 @@ def main(tier):
                                  bounds={'history length': ln, 'operations': OPS, 'first operation': OPS[o0], 'opened by': ['library', 'CLI context'][opener], 'before opening': PRE[pre],
                                          'database': 'private copy of tests/data/testdb_210818 (SQLite genome file + HDF5 signature file)'}))
     xprop.run_jobs(run, jobs, rung=tier)
+    run.extra['evaluations'] = sum(r.get('cells_executed', 0) for r in run.obligations)
+    run.extra['distinct_nontrivial'] = sum(r.get('cells_distinct', 0) for r in run.obligations if r.get('status') == 'holds')
+    run.extra['exhaustive'] = all(r.get('status') == 'holds' for r in run.obligations)
+    run.samples.extend({'cell': r['cell_sample']} for r in run.obligations[:6] if r.get('cell_sample'))
     xprop.note_sources(run, ['src/gambit/db/sqla.py', 'src/gambit/db/refdb.py', 'src/gambit/cli/common.py', 'src/gambit/sigs/hdf5.py', 'src/gambit/sigs/base.py'])
     run.bounds = {'histories': f'every sequence of {ln} operations out of {len(OPS)} kinds x 2 ways of opening the database = {2 * len(OPS) ** ln} histories',
                   'observed': 'sha256 of both files after every step and after closing; every statement sent to the SQLite engine; commit() outcome; directory listing at the end'}
